@@ -199,13 +199,13 @@ def gcc_shape(draw):
 
 def strategy_service(tier):
     mx = 8 if tier == "quick" else 12
-    return st.one_of(
+    return G.with_options(st.one_of(
         G.gcc_problem(max_rows=14),
         G.gcc_problem(max_rows=14, with_utilities=False),
         G.problem(min_streams=4, max_streams=mx, shape="mixed", thirds=False),
         G.problem(min_streams=5, max_streams=mx, shape="mixed", thirds=False, iso_share=0.0, with_utilities=False),
         G.problem(min_streams=3, max_streams=mx, shape="mixed", multi_zone=True),
-    )
+    ))
 
 
 PARTS = [
